@@ -167,12 +167,13 @@ def check_hist_zero_scale(dim: int, n0: int, n1: int, s: int) -> bool:
 
 
 def check_hist_add(dim: int, n0: int, n1: int, n2: int, offa: int, offb: int, neg: bool,
-                   w: int, same_edges: bool) -> bool:
+                   w: int, edge_mode: int) -> bool:
     """
     pre: 1 <= dim <= B.DIM
     pre: 1 <= n0 <= B.NB and 1 <= n1 <= B.NB and 1 <= n2 <= B.NB
     pre: 0 <= offa <= 2 and 0 <= offb <= 2
     pre: -2 <= w <= 3
+    pre: 0 <= edge_mode <= 3
     pre: h.in_shard(dim - 1 + B.DIM * (n0 - 1))
     post: _
     """
@@ -182,11 +183,18 @@ def check_hist_add(dim: int, n0: int, n1: int, n2: int, offa: int, offb: int, ne
     a, edges, ns = mkhist(dim, n0, n1, n2, offa, False)
     b, _, _ = mkhist(dim, n0, n1, n2, offb, True if neg else False)
     a.n_out_of_range, b.n_out_of_range = 2, 3
-    if not same_edges:
+    # edge_mode 0: equal edges; 1: shifted by 1; 2: shifted by 1e-10 (a different
+    # mesh: the edge 0 is not within the relative tolerance 1e-9 of 1e-10);
+    # 3: scaled by (1 + 1e-12) (equal within the relative tolerance)
+    edge_mode = h.concrete(edge_mode, 0, 3)
+    same_edges = edge_mode in (0, 3)
+    if edge_mode:
+        f = {1: (lambda x: x + 1), 2: (lambda x: x + 1e-10), 3: (lambda x: x * (1 + 1e-12))}[edge_mode]
         if dim == 1:
-            b = histogram([x + 1 for x in b.edges], b.bins)
+            b = histogram([f(x) for x in b.edges], b.bins)
         else:
-            b = histogram([[x + 1 for x in ax] for ax in b.edges], b.bins)
+            b = histogram([[f(x) for x in ax] for ax in b.edges], b.bins)
+        b.n_out_of_range = 3
     sa, sb = copy.deepcopy((a.bins, a.edges, a.n_out_of_range)), copy.deepcopy((b.bins, b.edges, b.n_out_of_range))
     try:
         c = a.add(b, w)
@@ -404,7 +412,8 @@ CONDITIONS = [
          smoke=["check_hist_scale(1, 2, 1, 1, 0, False, 5, 2, False)", "check_hist_scale(2, 2, 2, 1, 1, True, -3, 0, True)"]),
     dict(fn="check_hist_zero_scale", budget=(60, 300), smoke=["check_hist_zero_scale(2, 2, 1, 4)"]),
     dict(fn="check_hist_add", shards=(4, 9), budget=(80, 900),
-         smoke=["check_hist_add(1, 2, 1, 1, 0, 1, False, 2, True)", "check_hist_add(2, 2, 2, 1, 0, 1, True, -1, False)"]),
+         smoke=["check_hist_add(1, 2, 1, 1, 0, 1, False, 2, 0)", "check_hist_add(2, 2, 2, 1, 0, 1, True, -1, 1)",
+                "check_hist_add(1, 2, 1, 1, 0, 1, False, 2, 2)", "check_hist_add(2, 2, 2, 1, 0, 1, False, 2, 3)"]),
     dict(fn="check_set_nevents", shards=(4, 9), budget=(80, 900),
          smoke=["check_set_nevents(2, 2, 2, 1, 1, 5, True)"]),
     dict(fn="check_graph_scale", shards=(4, 11), budget=(80, 900),
